@@ -136,6 +136,16 @@ def getter_out_fields(E, fn, blocks, depth=0):
     return out
 
 
+SET_EXCLUSIVE_OK = {
+    # (setter command, (record, field)): reason - opening a resource by name is the other way of giving the pipe its descriptor, and starts a new resource
+    ('UPIPE_FSINK_SET_PATH', ('upipe_fsink', 'fd')): 'set_path opens the file: the descriptor it obtains replaces one given with set_fd (two ways of naming the same resource)',
+    ('UPIPE_SET_URI', ('upipe_udpsink', 'fd')): 'set_uri opens the socket: the descriptor it obtains replaces one given with set_fd',
+    ('UPIPE_SET_URI', ('upipe_udpsrc', 'fd')): 'set_uri opens the socket: the descriptor it obtains replaces one given with set_fd',
+    ('UPIPE_SET_URI', ('upipe_fsrc', 'length')): 'set_uri opens another file: the range asked for the previous one does not carry over (upipe.h: the range applies to the current URI)',
+    ('UPIPE_SET_URI', ('upipe_http_src', 'position')): 'set_uri starts another transfer: the position restarts with it',
+}
+
+
 def _va_args_in(fn, x):
     """va_arg nodes under the arguments of the call x (nested calls are sequence points of their own, not entered)"""
     from upv.facts import children
@@ -212,6 +222,9 @@ def run(tier='quick', repo=None):
     check_va_seq(rep, prog)
     E = effects.Effects(prog)
     pairs_seen = []
+    n_excl = [0]
+    rep.rule('R-set-exclusive', 'for two options K and J handled by one control function, each with a getter and a setter: a private field that GET_K copies out and '
+             'GET_J does not is not stored by the code handling SET_J - configuring one option does not silently rewrite another one the caller configured earlier')
     for uname, u in sorted(prog.units.items()):
         roots = []
         for slots in control.mgr_slots(u):
@@ -275,6 +288,7 @@ def run(tier='quick', repo=None):
                             rep.add('R-get-pure', inst, HOLDS, loc, blocks=len(own),
                                     callees=sorted(calls)[:8])
             # pairs
+            pair_info = {}
             for k in sorted(sl):
                 if not is_getter(k) or setter_of(k) not in sl or k in NOT_A_PAIR:
                     continue
@@ -291,6 +305,7 @@ def run(tier='quick', repo=None):
                             sf.add((e.rec, e.field))
                 inst = '%s:%s' % (rname, k)
                 direct = sorted({(r, f) for r, f, d in gf if d and r})
+                pair_info[k] = (ks, set(direct), sf)
                 if not direct:
                     rep.add('R-getset-agree', inst, OOS, root.loc, why='getter computes or forwards the value; not compared',
                             getter_fields=[list(x) for x in gf][:6])
@@ -327,7 +342,24 @@ def run(tier='quick', repo=None):
                                             ps.fn, ps.blocks, ps.case_block = g3, set(g3.blocks), g3.entry
                                             check_set_atomic(rep, E, ps, ks, rname)
                                         check_composite(rep, E, g3, ks, rname, seen_fns)
+            # R-set-exclusive: what the getter of one option reports is not rewritten by the setter of another option
+            for k, (ks, dk, _) in sorted(pair_info.items()):
+                for j, (js, dj, sj) in sorted(pair_info.items()):
+                    if j == k:
+                        continue
+                    for fld in sorted(dk & sj):
+                        if fld in dj:
+                            continue        # one field behind two options: reported by both getters
+                        inst2 = '%s:%s-by-%s' % (rname, k, js)
+                        if (js, fld) in SET_EXCLUSIVE_OK:
+                            rep.add('R-set-exclusive', inst2, OOS, root.loc, why='listed: ' + SET_EXCLUSIVE_OK[(js, fld)])
+                        else:
+                            rep.add('R-set-exclusive', inst2, VIOLATED, root.loc,
+                                    what='%s.%s is what %s reports, and the code handling %s stores into it: after set(%s) the value accepted earlier by %s is no '
+                                         'longer the one in force nor the one reported' % (fld[0], fld[1], k, js, js, ks))
+                n_excl[0] += len(dk)
     check_post_hooks(rep, prog, E)
+    rep.add('R-set-exclusive', 'all-pairs', HOLDS, '', getter_fields_compared=n_excl[0])
     rep.tables['pairs'] = ['%s %s/%s' % p for p in pairs_seen][:300]
     rep.tables['n_pairs'] = len(pairs_seen)
     rep.tables['not_a_pair'] = NOT_A_PAIR
